@@ -1,0 +1,115 @@
+//
+// Verification hooks runtime (see verif.h).  Empty unless NNG_VERIF.
+//
+
+#ifdef NNG_VERIF
+
+#include <pthread.h>
+#include <stdarg.h>
+#include <stdio.h>
+#include <stdlib.h>
+#include <string.h>
+
+#include "nng_impl.h"
+#include "verif.h"
+
+nni_verif_ops nni_verif;
+
+static pthread_mutex_t verif_mtx   = PTHREAD_MUTEX_INITIALIZER;
+static FILE           *verif_file  = NULL;
+static int             verif_state = 0; // 0 unknown, 1 file, 2 off
+static unsigned long   verif_seq   = 0;
+static int             verif_tids  = 0;
+static __thread int    verif_tid   = 0;
+
+static void
+verif_close(void)
+{
+	pthread_mutex_lock(&verif_mtx);
+	if (verif_file != NULL) {
+		fclose(verif_file);
+		verif_file = NULL;
+	}
+	verif_state = 2;
+	pthread_mutex_unlock(&verif_mtx);
+}
+
+bool
+nni_verif_tracing(void)
+{
+	if (nni_verif.sink != NULL) {
+		return (true);
+	}
+	if (verif_state == 0) {
+		pthread_mutex_lock(&verif_mtx);
+		if (verif_state == 0) {
+			const char *name = getenv("NNG_VERIF_TRACE");
+			if ((name != NULL) && (name[0] != '\0') &&
+			    ((verif_file = fopen(name, "a")) != NULL)) {
+				setvbuf(verif_file, NULL, _IOFBF, 1 << 20);
+				atexit(verif_close);
+				verif_state = 1;
+			} else {
+				verif_state = 2;
+			}
+		}
+		pthread_mutex_unlock(&verif_mtx);
+	}
+	return (verif_state == 1);
+}
+
+void
+nni_verif_trace(
+    const char *obj, const void *ptr, const char *ev, const char *fmt, ...)
+{
+	char    line[512];
+	int     n;
+	va_list ap;
+
+	pthread_mutex_lock(&verif_mtx);
+	if (verif_tid == 0) {
+		verif_tid = ++verif_tids;
+	}
+	n = snprintf(line, sizeof(line),
+	    "{\"q\":%lu,\"t\":%d,\"o\":\"%s\",\"p\":\"%lx\",\"e\":\"%s\"",
+	    ++verif_seq, verif_tid, obj, (unsigned long) (uintptr_t) ptr, ev);
+	if ((fmt != NULL) && (n > 0) && ((size_t) n < sizeof(line) - 2)) {
+		line[n++] = ',';
+		va_start(ap, fmt);
+		n += vsnprintf(line + n, sizeof(line) - (size_t) n - 2, fmt, ap);
+		va_end(ap);
+	}
+	if ((n < 0) || ((size_t) n > sizeof(line) - 2)) {
+		n = (int) sizeof(line) - 2;
+	}
+	line[n++] = '}';
+	line[n]   = '\0';
+	if (nni_verif.sink != NULL) {
+		nni_verif.sink(line);
+	} else if (verif_file != NULL) {
+		fputs(line, verif_file);
+		fputc('\n', verif_file);
+	}
+	pthread_mutex_unlock(&verif_mtx);
+}
+
+// Run a task that was taken by the gate: what a task queue thread does.
+void
+nni_verif_task_run(nni_task *task)
+{
+	NNI_VERIF_TRACE("task", task, "cb_in", NULL);
+	task->task_cb(task->task_arg);
+
+	nni_mtx_lock(&task->task_mtx);
+	NNI_VERIF_TRACE("task", task, "cb_out", NULL);
+	task->task_busy--;
+	if (task->task_busy == 0) {
+		nni_cv_wake(&task->task_cv);
+	}
+	nni_mtx_unlock(&task->task_mtx);
+}
+
+#else
+// ISO C forbids an empty translation unit.
+typedef int nni_verif_unused;
+#endif // NNG_VERIF
